@@ -14,6 +14,10 @@ import Proofs.RefactorGraphIn
 import Proofs.RefactorGraphCall
 import Proofs.RefactorGraphOut
 import Proofs.RefactorGraphRem
+import Proofs.RefactorGraphDel
+import Proofs.RefactorGraphRo
+import Proofs.RefactorClosure
+import Proofs.RefactorLoop
 
 namespace Props.C19
 open Martian.Refactor
@@ -336,5 +340,106 @@ top-level binding); both steps satisfy the side condition; the graph changes. -/
 example : removeInputClosure exProg (closureFuel exProg) [("S", "a")] [] = [("S", "a"), ("P", "a")]
     ∧ RemInsOK [("S", "a"), ("P", "a")] exProg = true
     ∧ (deepGraph exTi exProg).map (remNodeIn "S" "a") ≠ deepGraph exTi exProg := by decide
+
+/-- **remove_input_closure_graph** — the full form of
+`remove_input_closure_graph_partial`: the side condition `RemInsOK` is DERIVED
+from the closure's own analysis (`leftoverInputs`).  On a structurally
+well-formed program (`StructOK`: what the compiler guarantees, independent of
+the edit) in which nothing inside `x` reads `self.q` (`seedOK`; vacuous for a
+stage), the whole edit `removeInput x q` — the parameter, the bindings of the
+calls of `x`, and the cascade of pipeline inputs that nothing binds any more —
+removes exactly those keys from the nodes of the resolved call graph and leaves
+every remaining resolved input, every output and retained reference unchanged. -/
+theorem remove_input_closure_graph (x q : String) (ti : TypeInfo) (p : Program)
+    (hx : (p.find? x).isSome = true) (hs : StructOK p = true) (hseed : seedOK x q p = true) :
+    deepGraph (ti.removeInputs (removeInputClosure p (closureFuel p) [(x, q)] [])) (removeInput x q p)
+      = (removeInputClosure p (closureFuel p) [(x, q)] []).foldl
+          (fun g xq => g.map (remNodeIn xq.1 xq.2)) (deepGraph ti p) :=
+  remove_input_closure_graph_partial x q ti p hx
+    (Proofs.RefactorGraph.closure_remInsOK p x q (closureFuel p) hs hseed)
+
+example : StructOK exProg = true ∧ seedOK "S" "a" exProg = true := by decide
+
+/-- **remove_calls_graph.**  Deleting calls that nothing remaining refers to
+(`CallRemOK`: what `unusedCalls` establishes) leaves every remaining node of the
+resolved call graph exactly as it was — the graph after the deletion is the
+graph of the kept calls resolved in the ORIGINAL program (`deepGraphKeepAt`) —
+at every unfolding budget `(big, fuel)` (`deepGraph` is `deepGraphAt` at
+`graphFuel`, which the deletion lowers). -/
+theorem remove_calls_graph (rem : List CallRemoval) (ti : TypeInfo) (p : Program)
+    (hok : CallRemOK rem p = true) (big fuel : Nat) :
+    deepGraphAt big fuel ti (applyCallRemovals rem p) = deepGraphKeepAt (keepOf rem) big fuel ti p := by
+  unfold deepGraphAt deepGraphKeepAt
+  have htop : (applyCallRemovals rem p).top = p.top := rfl
+  rw [htop]
+  cases ht : p.top with
+  | none => rfl
+  | some t => exact Proofs.RefactorGraph.remove_calls_nodes rem ti p hok big fuel t ht
+
+/-- `pipeline P2(in a, out r) { call S(a = self.a)  call T as U(a = S.o)  call S as V(a = U.o)
+return (r = S.o) }`: the call `V` is referenced by nothing. -/
+def exP2 : Callable := { exP with ret := [⟨"r", .ref ⟨.call, "S", ["o"]⟩⟩], retain := [] }
+def exProg3 : Program := ⟨[exS, exT, exP2], some ⟨"P", "P", "", [⟨"a", .lit "31"⟩], []⟩⟩
+
+example : CallRemOK [⟨"P", ["V"]⟩] exProg3 = true
+    ∧ (deepGraphAt 9 9 exTi (applyCallRemovals [⟨"P", ["V"]⟩] exProg3)).length = 3
+    ∧ (deepGraphAt 9 9 exTi exProg3).length = 4 := by decide
+
+/-- **remove_output_graph** (the deep form of `remove_output_unused`).  Removing
+an output `o` of `x` that nothing refers to (`RemOutOK`: projected from no call
+of `x`, no call of `x` bound as a whole, `x` not used as a type, not the last
+output) — the parameter with its return binding / retain entry — leaves the
+resolved call graph unchanged except that the nodes of pipeline `x` lose the key
+`o` in their resolved output struct.  (The pipeline inputs that this leaves
+unbound are then removed by the cascade: `remove_input_closure_graph`.) -/
+theorem remove_output_graph (x o : String) (ti : TypeInfo) (p : Program)
+    (hok : RemOutOK x o ti p = true) :
+    deepGraph (ti.removeOutput x o) (outStep x o p) = (deepGraph ti p).map (remNodeOut x o) :=
+  Proofs.RefactorGraph.remove_output_graph x o ti p hok
+
+/-- non-vacuity: stage `S2(in a, out o, out u)` whose output `u` nobody reads;
+pipeline `P` with a second output `w`. -/
+def exS2 : Callable := ⟨false, "S", false, ["a"], [("o", false), ("u", false)], [], [], [], []⟩
+def exP4 : Callable := { exP with outs := [("r", false), ("w", false)],
+                                  ret := exP.ret ++ [⟨"w", .ref ⟨.call, "U", ["o"]⟩⟩] }
+def exProg4 : Program := ⟨[exS2, exT, exP4], some ⟨"P", "P", "", [⟨"a", .lit "31"⟩], []⟩⟩
+
+example : RemOutOK "S" "u" exTi exProg4 = true ∧ RemOutOK "P" "w" exTi exProg4 = true
+    ∧ (deepGraph exTi exProg4).map (remNodeOut "P" "w") ≠ deepGraph exTi exProg4 := by decide
+
+/-- **remove_unused_calls_pass_graph.**  One pass of `RemoveAllUnusedCalls` (delete
+the calls selected by `unusedCalls`, then remove the pipeline inputs this leaves
+unbound with their cascade) on a structurally well-formed program: the graph
+after the pass is the graph of the kept calls, resolved in the program BEFORE
+the pass, minus the removed input keys.  No side condition about the edit is
+assumed: that the deleted calls are unreferenced, that every cascaded input is
+unreferenced when it is removed, and that the seeds of the cascade are, are
+derived from `unusedCalls`, `leftoverInputs` and `unboundInputs`. -/
+theorem remove_unused_calls_pass_graph (p : Program) (ti : TypeInfo) (hs : StructOK p = true)
+    (big fuel : Nat) :
+    deepGraphAt big fuel (ti.removeInputs (unusedCallPlan p).2)
+        (removeInputs (unusedCallPlan p).2 (applyCallRemovals (unusedCallPlan p).1 p))
+      = (unusedCallPlan p).2.foldl (fun g xq => g.map (remNodeIn xq.1 xq.2))
+          (deepGraphKeepAt (keepOf (unusedCallPlan p).1) big fuel ti p) :=
+  Proofs.RefactorGraph.calls_pass_graph p ti hs big fuel
+
+/-- **remove_unused_calls_loop_graph** — the remove-unused fixed point at the level
+of the resolved call graph, in the remove-unused-calls mode of `mro edit` (no
+`-top-calls`): after the loop, every node is a node of the original graph with
+the same fqid, callable, resolved outputs and retained references, and with
+resolved inputs that are a sub-list of the original ones (`GraphLe`) — for every
+number of iterations and every unfolding budget.
+PARTIAL with respect to the full loop: with `-top-calls` the loop also removes
+unused pipeline OUTPUTS; each such removal is covered by `remove_output_graph`
+under its decidable hypothesis `RemOutOK`, which is not derived from the
+`unusedOutputs` reachability analysis. -/
+theorem remove_unused_calls_loop_graph (p0 p : Program) (ti : TypeInfo) (n big fuel : Nat)
+    (hs : StructOK p = true) :
+    ∃ ti', Proofs.RefactorGraph.GraphLe (deepGraphAt big fuel ti' (removeLoop p0 true [] n p))
+      (deepGraphAt big fuel ti p) :=
+  Proofs.RefactorGraph.remove_calls_loop_graph p0 big fuel n p ti hs
+
+example : StructOK exProg3 = true ∧ (unusedCallPlan exProg3).1 = [⟨"P", ["V"]⟩]
+    ∧ removeUnused true [] exProg3 ≠ exProg3 := by decide
 
 end Props.C19
